@@ -369,8 +369,15 @@ def check(an, rep, tier):
     _callers = {f.qualname for f in prog.all_functions()
                 if f.module.name in ('optima', 'optima_func')}
     _RP.check_param_forwarding(prog, rep, callers=_callers)
+    from .. import rules_proto as _RPZ
+    _RPZ.check_none_vs_zero(prog, rep, modules={'optima', 'optima_func'})
     rep.floor('S-layout', 3, 'beam layouts')
     rep.floor('V-provenance', 4, 'value provenance')
     rep.floor('U-ledger', 4, 'beam ledger')
+    from .. import rules_formula as _RF, rules_sym as _RS
+    from ..poly import Poly as _P
+    _RF.check_basis_values(prog, rep, 'optima_func._cheb_my_poly', 'n', 'X',
+                           first=_RF.Rat(_P.sym('@sqrt(0.5)')))
+    rep.floor('F-basis', 4, 'normalised Chebyshev basis of the functional variant')
     rep.floor('P-select', 2, 'candidate ordering')
     rep.floor('S-einsum', 2, 'beam contractions')
